@@ -180,6 +180,47 @@ func (m ImportsMatcher) Match(file *ast.File, d data.Data) (_ data.Data, ok bool
 	}), true
 }
 
+// matchAll reports every way in which the imports of the file satisfy the
+// imports of the patch. There is more than one when the file imports a path
+// under several names and the patch names that import with a metavariable:
+// each of the names is something the metavariable may stand for.
+func (m ImportsMatcher) matchAll(file *ast.File, d data.Data) []data.Data {
+	candidates := []data.Data{d}
+	matchedImports := make([]string, 0, len(m.Imports))
+	for _, im := range m.Imports {
+		var next []data.Data
+		for _, d := range candidates {
+			for _, spec := range file.Imports {
+				if goast.ImportPath(spec) != im.Path {
+					continue
+				}
+				newD, ok := im.matchSpec(spec, d)
+				if !ok {
+					continue
+				}
+				next = append(next, newD)
+				if !im.NameIsMetavar {
+					// Nothing is bound: the first import in
+					// the stated form is as good as any.
+					break
+				}
+			}
+		}
+		if len(next) == 0 {
+			return nil
+		}
+		candidates = next
+		matchedImports = append(matchedImports, im.Path)
+	}
+
+	for i, d := range candidates {
+		candidates[i] = data.WithValue(d, importsKey, importsData{
+			MatchedImports: matchedImports,
+		})
+	}
+	return candidates
+}
+
 type _importsKey string
 
 var importsKey _importsKey
